@@ -270,7 +270,16 @@ def gen_tree_on_disk(r, root, depth, budget, siblings_root):
         p = os.path.join(root, n)
         k = r.choices(["file", "dir", "lfile", "ldir", "lbroken", "fifo"],
                       [10, 7 if depth > 0 else 0, 2, 2, budget[1], 1])[0]
-        if k == "file":
+        if k == "file" and r.random() < 0.12:
+            # a file with a hole (a disk image, a preallocated database): the archiver stores it as a GNU
+            # sparse entry where the filesystem reports holes; it must come back byte for byte like any other
+            with open(p, "wb") as f:
+                f.write(bytes(r.randrange(256) for _ in range(r.choice([1, 4096, 5000]))))
+                f.seek(r.choice([1 << 16, (1 << 18) + 17]), os.SEEK_CUR)
+                f.write(bytes(r.randrange(256) for _ in range(r.choice([0, 1, 4096]))))
+                if r.random() < 0.3:
+                    f.truncate(f.tell() + (1 << 16))      # ends in a hole
+        elif k == "file":
             open(p, "wb").write(bytes(r.randrange(256) for _ in range(r.choice([0, 1, 3, 6, 40]))))
         elif k == "dir":
             os.mkdir(p)
